@@ -58,10 +58,13 @@ def isSimpleFloat (s : Bytes) : Bool :=
   | 46 :: fr => fr.all isDigit && (!ip.isEmpty || !fr.isEmpty)
   | _ => false
 
-/-- `gaussian.CalculateGaussianRate` -/
-def calcGaussian (freq stddev : Int) (weights dist : Bytes) : Res Int :=
+/-- `gaussian.CalculateGaussianRate`. `derivable` is an input of the model: whether `NewCalculator` can derive a
+rate at all — the repeat window covers a non-zero part of the distribution (in binary64: `CDF(repeat − frequency) −
+CDF(0) > 0`) and the weights do not sum to zero. It is decided by float `erfc`, which is outside the model; the driver
+supplies it (after the `fix:` commit for D17 the code refuses the configuration otherwise). -/
+def calcGaussian (freq stddev : Int) (weights dist : Bytes) (derivable : Bool := true) : Res Int :=
   if ((splitOn 44 weights).filter (fun w => !w.isEmpty)).all isSimpleFloat then
-    if stddev ≤ 0 then .err else newDistribution dist freq
+    if stddev ≤ 0 then .err else if !derivable then .err else newDistribution dist freq
   else .err
 
 /-! ### the decoded config file -/
@@ -83,6 +86,7 @@ structure StageCfg where
   peak               : Option Int := none
   stddev             : Option Int := none
   parameters         : Option (List (String × String)) := none
+  gaussDerivable     : Bool := true      -- oracle input for a gaussian stage, see `calcGaussian`
   deriving Repr, DecidableEq
 
 structure Limits where
@@ -150,7 +154,7 @@ def parseStage (s d : StageCfg) (mode : Bytes) (duration : Int) : Res RStage :=
       req (inh s.iterationFrequency d.iterationFrequency) fun fr => req (inh s.peak d.peak) fun _ =>
         req (inh s.weights d.weights) fun w => req (inh s.stddev d.stddev) fun sd =>
           req (inh s.distribution d.distribution) fun dist =>
-            (calcGaussian fr sd w dist).bind fun iv => .ok ⟨duration, iv, 0, params, jit, dist == b_none, false⟩
+            (calcGaussian fr sd w dist s.gaussDerivable).bind fun iv => .ok ⟨duration, iv, 0, params, jit, dist == b_none, false⟩
   else if mode = b_users then
     req (inh s.concurrency d.concurrency) fun c => if c < 1 then .err else .ok ⟨duration, 0, c, params, 0, false, false⟩
   else .err
